@@ -203,7 +203,8 @@ class Ref:
         the result of a failed direct dependency (run() bodies read every
         dependency)."""
         ex = set(execute)
-        failed: set[int] = set()
+        # a loaded node can only fail by itself (its loader died); it reads no dependency
+        failed: set[int] = set(intrinsic) - ex
         changed = True
         while changed:
             changed = False
